@@ -14,6 +14,7 @@ import (
 	"math"
 	"net/http"
 	"strconv"
+	"strings"
 	"time"
 )
 
@@ -189,7 +190,7 @@ func PromError(code int, msg string, w http.ResponseWriter) {
 	stream.WriteString("error")
 	stream.WriteMore()
 	stream.WriteObjectField("error")
-	stream.WriteString(msg)
+	stream.WriteString(strings.ToValidUTF8(msg, "\uFFFD"))
 	stream.WriteObjectEnd()
 
 	w.Write(stream.Buffer())
@@ -277,7 +278,7 @@ func writeString(res *promql.Result, w http.ResponseWriter) error {
 	defer json.ReturnStream(stream)
 	stream.WriteRaw(fmt.Sprintf("%f", float64(val.T)/1000))
 	stream.WriteMore()
-	stream.WriteString(val.V)
+	stream.WriteString(strings.ToValidUTF8(val.V, "\uFFFD"))
 	w.Write(stream.Buffer())
 	return nil
 }
@@ -326,8 +327,8 @@ func writeMatrix(res *promql.Result, w http.ResponseWriter) error {
 			if j > 0 {
 				stream.WriteMore()
 			}
-			stream.WriteObjectField(v.Name)
-			stream.WriteString(v.Value)
+			stream.WriteObjectField(strings.ToValidUTF8(v.Name, "\uFFFD"))
+			stream.WriteString(strings.ToValidUTF8(v.Value, "\uFFFD"))
 		}
 
 		stream.WriteObjectEnd()
@@ -394,8 +395,8 @@ func writeVector(res *promql.Result, w http.ResponseWriter) error {
 			if j > 0 {
 				stream.WriteMore()
 			}
-			stream.WriteObjectField(lbl.Name)
-			stream.WriteString(lbl.Value)
+			stream.WriteObjectField(strings.ToValidUTF8(lbl.Name, "\uFFFD"))
+			stream.WriteString(strings.ToValidUTF8(lbl.Value, "\uFFFD"))
 		}
 
 		stream.WriteObjectEnd()
